@@ -676,7 +676,10 @@ def rule_chunked_both_forms(ctx):
             vals = flag_tests(nd[1])
             global_case = any(x[0] == "mem" and x[2] == "chunk_g" for x in walk(nd[1], True))
             # HDF_CHUNK = 1, HDF_COMP = 2
-            if global_case:
+            bit_test = any(x[0] == "bin" and x[1] == "&" and kind(strip(x[2])) == "deref" and kind(strip(strip(x[2])[1])) == "var" and strip(strip(x[2])[1])[1] == "chunk_flags" and is_int(x[3]) and int_val(x[3]) & 1 for x in walk(nd[1], True))
+            if bit_test:
+                ctx.holds("CHUNKFORMS", key, f.where(line), "the decision tests the HDF_CHUNK bit, which both spellings of \"chunked\" carry", nontrivial=True)
+            elif global_case:
                 ctx.holds("CHUNKFORMS", key, f.where(line), "the global chunking applies to this object: its chunk definition is built from the options", nontrivial=False)
             elif 1 in vals and 3 in vals:
                 ctx.holds("CHUNKFORMS", key, f.where(line), "the decision accepts both spellings of \"chunked\"", nontrivial=True)
